@@ -1,8 +1,8 @@
 package props
 
 import (
-	"go/types"
 	"fmt"
+	"go/types"
 
 	"gedverif/internal/cg"
 	"gedverif/internal/e1"
